@@ -148,6 +148,8 @@ pub struct Ctx {
     pub known: std::sync::Arc<Vec<crate::known::Finding>>,
     /// number of property-relevant rare events seen in this run (for the non-trivial rule)
     pub rare: u64,
+    /// further properties whose comparisons are evaluated (threaded engine: C13, C14, C01)
+    pub also: Vec<&'static str>,
 }
 
 impl Ctx {
@@ -159,7 +161,7 @@ impl Ctx {
         self.prop == p || self.prop == "C20"
     }
     pub fn is(&self, p: &str) -> bool {
-        self.prop == p
+        self.prop == p || self.also.iter().any(|a| *a == p)
     }
     pub fn hit(&mut self, k: &'static str) {
         self.stats.hit(k)
